@@ -316,6 +316,8 @@ fn compute_used_produced(
     // Used energy for this carrier for each service for all timesteps
     let mut E_EPus_cr_an_by_srv = HashMap::<Service, f32>::new();
     for (service, epus_srv) in &E_EPus_cr_t_by_srv {
+        #[cfg(feature = "verif_hooks")]
+        crate::verif_hooks::observe("balance::compute_used_produced::service_an", format!("{}|{}", carrier, service));
         E_EPus_cr_an_by_srv.insert(*service, vecsum(epus_srv));
     }
 
@@ -360,6 +362,8 @@ fn compute_used_produced(
         // No priorities: distribution is proportional to the share of produced energy for each source at each time step
         E_pr_cr_used_EPus_t = vecvecmul(&f_match_t, &vecvecmin(&E_EPus_cr_t, &E_pr_cr_t));
         for (source, prod_cr_j_t) in &E_pr_cr_j_t {
+            #[cfg(feature = "verif_hooks")]
+            crate::verif_hooks::observe("balance::compute_used_produced::source_share", format!("{}|{}", carrier, source));
             // * Fraction of produced energy from source j (formula 14)
             // We have grouped by source type (it could be made by generator i, for each one of them)
             let f_pr_cr_j: Vec<_> = prod_cr_j_t
@@ -387,9 +391,13 @@ fn compute_used_produced(
     let mut E_pr_cr_j_used_EPus_by_srv_by_src_an: HashMap<ProdSource, HashMap<Service, f32>> =
         HashMap::new();
     for (source, prod) in &E_pr_cr_j_used_EPus_t {
+        #[cfg(feature = "verif_hooks")]
+        crate::verif_hooks::observe("balance::compute_used_produced::used_by_source", format!("{}|{}", carrier, source));
         let mut source_prod_by_srv_t = HashMap::new();
         let mut source_prod_by_srv_an = HashMap::new();
         for (service, factors) in &f_us_cr_by_srv_t {
+            #[cfg(feature = "verif_hooks")]
+            crate::verif_hooks::observe("balance::compute_used_produced::used_by_source_by_service", format!("{}:{}|{}", carrier, source, service));
             let values: Vec<_> = prod
                 .iter()
                 .zip(factors.iter())
@@ -478,6 +486,8 @@ fn compute_exported_delivered(
     // All energy produced onsite is delivered energy, though part of it can be later exported
     let mut E_del_cr_onsite_t = vec![0.0_f32; E_del_cr_t.len()];
     for (prod_src, prod_values_t) in &prod.by_src_t {
+        #[cfg(feature = "verif_hooks")]
+        crate::verif_hooks::observe("balance::compute_exported_delivered::onsite", format!("{:?}|{}", prod.by_src_t.keys().map(|k| k.to_string()).collect::<std::collections::BTreeSet<_>>(), prod_src));
         match (*prod_src).into() {
             Source::INSITU => {
                 E_del_cr_onsite_t = vecvecsum(&E_del_cr_onsite_t, prod_values_t);
@@ -489,10 +499,14 @@ fn compute_exported_delivered(
 
     let mut E_exp_cr_j_t = HashMap::<ProdSource, Vec<f32>>::new();
     for (source, prod_src) in &prod.by_src_t {
+        #[cfg(feature = "verif_hooks")]
+        crate::verif_hooks::observe("balance::compute_exported_delivered::exp_by_source", format!("{:?}|{}", prod.by_src_t.keys().map(|k| k.to_string()).collect::<std::collections::BTreeSet<_>>(), source));
         E_exp_cr_j_t.insert(*source, vecvecdif(prod_src, &prod.epus_by_src_t[source]));
     }
     let mut E_exp_cr_j_an = HashMap::<ProdSource, f32>::new();
     for (source, exp_src) in &E_exp_cr_j_t {
+        #[cfg(feature = "verif_hooks")]
+        crate::verif_hooks::observe("balance::compute_exported_delivered::exp_by_source_an", format!("{:?}|{}", prod.by_src_t.keys().map(|k| k.to_string()).collect::<std::collections::BTreeSet<_>>(), source));
         E_exp_cr_j_an.insert(*source, vecsum(exp_src));
     }
     let E_exp_cr_an = E_exp_cr_used_nEPus_an + E_exp_cr_grid_an;
@@ -570,6 +584,8 @@ fn compute_weighted_energy(
         let f_we_exp_cr_compute = |dest: Dest, step: Step| -> Result<RenNrenCo2> {
             let mut result = RenNrenCo2::default();
             for (source, E_exp_cr_gen_an) in &exp.by_src_an {
+                #[cfg(feature = "verif_hooks")]
+                crate::verif_hooks::observe("balance::compute_weighted_energy::exp_factor", format!("{}:{:?}:{:?}|{}", carrier, dest, step, source));
                 result += wfactors.find(carrier, (*source).into(), dest, step)?
                     * (E_exp_cr_gen_an / exp.an);
             }
@@ -640,6 +656,8 @@ fn compute_weighted_energy(
     let mut E_we_cr_an_A_by_srv: HashMap<Service, RenNrenCo2> = HashMap::new();
     let mut E_we_cr_an_by_srv: HashMap<Service, RenNrenCo2> = HashMap::new();
     for (service, f_us_k_cr) in f_us_cr {
+        #[cfg(feature = "verif_hooks")]
+        crate::verif_hooks::observe("balance::compute_weighted_energy::by_service", format!("{}|{}", carrier, service));
         E_we_cr_an_A_by_srv.insert(service, E_we_cr_an_A * f_us_k_cr);
         E_we_cr_an_by_srv.insert(service, E_we_cr_an * f_us_k_cr);
     }
